@@ -5,6 +5,7 @@ import (
 	"encoding/hex"
 	"encoding/json"
 	"fmt"
+	"io"
 	"math/rand"
 	"reflect"
 	"strings"
@@ -28,13 +29,30 @@ type BadCase struct {
 
 // judgeBad runs the traversal of the property on malformed data; "" when the property holds.
 func judgeBad(data []byte) (verdict string) {
+	if v := judgeBadFrom(bytes.NewReader(data)); v != "" {
+		return v
+	}
+	// malformed stays malformed however the bytes arrive: one at a time, in small pieces with empty
+	// reads in between and the last piece together with io.EOF
+	if len(data) <= 4000 {
+		if v := judgeBadFrom(&chunkReader{data: data, chunks: []int{1}, failAt: -1}); v != "" {
+			return "(source delivering one byte per read) " + v
+		}
+		if v := judgeBadFrom(&chunkReader{data: data, chunks: []int{3, 0, 5}, eofWith: true, failAt: -1}); v != "" {
+			return "(source delivering 3, 0, 5 bytes per read, the end together with io.EOF) " + v
+		}
+	}
+	return ""
+}
+
+func judgeBadFrom(src io.Reader) (verdict string) {
 	var r ion.Reader
 	defer func() {
 		if rec := recover(); rec != nil {
 			verdict = "panic: " + ionx.PanicSite(rec)
 		}
 	}()
-	r = ion.NewReader(bytes.NewReader(data))
+	r = ion.NewReader(src)
 	obs := ionx.Observe(r)
 	if obs.Panic != "" {
 		return "panic: " + obs.Panic
@@ -212,6 +230,21 @@ func binaryAtoms() []rawAtom {
 	add("version-marker-in-value-position", 0xE0, 0x01, 0x00, 0xEA)
 	add("varuint-length-unterminated", 0x8E, 0x01, 0x02, 0x03)
 	add("bad-version-marker", 0xE0, 0x02, 0x00, 0xEA)
+	// a marker is four fixed bytes wherever it stands: first in the stream or between later values
+	add("bad-version-marker", 0xE0, 0x01, 0x00, 0x00)
+	add("bad-version-marker", 0xE0, 0x01, 0x00, 0xEB)
+	add("bad-version-marker", 0xE0, 0x01, 0x01, 0xEA)
+	add("bad-version-marker", 0xE0, 0x00, 0x00, 0xEA)
+	add("bad-version-marker", 0xE0, 0x01, 0x00, 0x20)
+	add("bad-version-marker", 0xE0, 0x01, 0xEA, 0x20)
+	// strings longer than any read buffer whose only bad byte is the last, the first, or in the middle
+	for _, n := range []int{4090, 5000, 9000, 70000} {
+		for _, at := range []int{0, n / 2, n - 1} {
+			body := bytes.Repeat([]byte{'a'}, n)
+			body[at] = 0xFF
+			out = append(out, rawAtom{"long-string-not-utf8", append(append([]byte{0x8E}, refVarUInt(uint64(n))...), body...)})
+		}
+	}
 	return out
 }
 
